@@ -624,6 +624,9 @@ package prover
 //@   ensures result1 == nil ==> (r.toks[p + 8] == tok.pk(ps.ProvingKey.val, 0) || r.toks[p + 8] == tok.pk(ps.ProvingKey.val, 1))
 //@   ensures result1 == nil ==> (r.toks[p + 9] == tok.vk(ps.VerifyingKey.val, 0) || r.toks[p + 9] == tok.vk(ps.VerifyingKey.val, 1))
 //@   ensures result1 == nil ==> r.toks[p + 10] == tok.cs(ps.ConstraintSystem.val)
+// completeness (C11): a stream that holds a whole system — eight header bytes, then a proving-key, a verifying-key and a
+// constraint-system section — is read without error, whatever its dimensions
+//@   ensures (p + 11 <= len(r.toks) && (forall k :: 0 <= k && k < 8 ==> tok.isByte(r.toks[p + k])) && tok.isPk(r.toks[p + 8]) && tok.isVk(r.toks[p + 9]) && tok.isCs(r.toks[p + 10])) ==> result1 == nil
 //@   lemmas beIntFrom_shift2
 
 // the S3 loader (AWS SDK calls, option closures) is outside the executable subset: its contract is TRUSTED (listed as an
@@ -648,7 +651,9 @@ package prover
 //@   modifies ps2, buf
 //@   ensures result == nil ==> ps2.TreeDepth == ps.TreeDepth && ps2.BatchSize == ps.BatchSize && ps2.ProvingKey.val == ps.ProvingKey.val &&
 //@              ps2.VerifyingKey.val == ps.VerifyingKey.val && ps2.ConstraintSystem.val == ps.ConstraintSystem.val
-//@   lemmas beInt_of_beByte pow256_4 tok_inj tok_cs_inj
+// what was written is read back: the round trip can only fail in the write
+//@   ensures result != nil ==> origin(result, "WriteTo.1")
+//@   lemmas beInt_of_beByte pow256_4 tok_inj tok_cs_inj tok_kind_pkvk tok_kind_cs beByte_range
 
 //@ func verifRoundTripRaw
 //@   property C11
@@ -656,7 +661,9 @@ package prover
 //@   modifies ps2, buf
 //@   ensures result == nil ==> ps2.TreeDepth == ps.TreeDepth && ps2.BatchSize == ps.BatchSize && ps2.ProvingKey.val == ps.ProvingKey.val &&
 //@              ps2.VerifyingKey.val == ps.VerifyingKey.val && ps2.ConstraintSystem.val == ps.ConstraintSystem.val
-//@   lemmas beInt_of_beByte pow256_4 tok_inj tok_cs_inj
+// what was written is read back: the round trip can only fail in the write
+//@   ensures result != nil ==> origin(result, "WriteRawTo.1")
+//@   lemmas beInt_of_beByte pow256_4 tok_inj tok_cs_inj tok_kind_pkvk tok_kind_cs beByte_range
 
 // ---------------------------------------------------------------------------------------
 // C12 — the import path builds the same circuit shape as setup / r1cs export
